@@ -213,10 +213,14 @@ package gogen
 //@ ensures imp(old(p.current.label) == nil, result0 == old(p.current.stmts))
 
 //@ func getPos
+//@ prop C17
 //@ readonly
+//@ requires imp(src != nil, len(src) >= 1)
 
 //@ func getEnd
+//@ prop C17
 //@ readonly
+//@ requires imp(src != nil, len(src) >= 1)
 
 //@ func (*CodeBuilder).panicCodeError
 //@ prop C17
